@@ -299,7 +299,8 @@ PROPS = {
                   ("Bug_WalDeletedEarly", DUR, "MC_RainDur_small.cfg", None),
                   ("Bug_ManifestBeforeTable", DUR, "MC_RainDur_small.cfg", None),
                   ("Bug_CurrentInPlace", DUR, "MC_RainDur_small.cfg", None),
-                  ("Bug_RecoverSkipsOlderWal", DUR, "MC_RainDur_small.cfg", "Durable")],
+                  ("Bug_RecoverSkipsOlderWal", DUR, "MC_RainDur_small.cfg", "Durable"),
+                  ("Bug_FileCounterNotRestored", DUR, "MC_RainDur_small.cfg", None)],
         work=[dict(driver="crash", args=["--nops", "40", "--threads", "2", "--both-reuse"],
                    quick=6, thorough=150),
               dict(driver="crash", args=["--nops", "25", "--threads", "2", "--early-reopen"],
